@@ -119,6 +119,23 @@ mod derived {
 	}
 
 	#[derive(Encode, Decode)]
+	pub struct Tomb {
+		#[codec(skip)]
+		pub a: u32,
+	}
+	impl Modelled for Tomb {
+		fn ty() -> Ty {
+			Ty::Struct { name: "Tomb".into(), fields: vec![FieldTy::skip(Ty::u(4))] }
+		}
+		fn to_val(&self) -> Val {
+			Val::Tuple(vec![self.a.to_val()])
+		}
+		fn from_val(_: &Val) -> Self {
+			Tomb { a: 0 }
+		}
+	}
+
+	#[derive(Encode, Decode)]
 	pub enum DE {
 		#[codec(index = 9)]
 		A,
@@ -160,6 +177,75 @@ mod derived {
 	}
 }
 
+/// non-zero-sized type with an empty encoding, hand-written so that it exists in every configuration
+#[derive(Clone, Copy, PartialEq, Eq, Debug)]
+pub struct Empty32(pub u32);
+impl Encode for Empty32 {
+	fn encode_to<W: parity_scale_codec::Output + ?Sized>(&self, _dest: &mut W) {}
+}
+impl Decode for Empty32 {
+	fn decode<I: parity_scale_codec::Input>(_: &mut I) -> Result<Self, parity_scale_codec::Error> {
+		Ok(Empty32(7))
+	}
+}
+impl Modelled for Empty32 {
+	fn ty() -> Ty {
+		Ty::Struct { name: "Empty32".into(), fields: vec![] }
+	}
+	fn to_val(&self) -> Val {
+		Val::Tuple(vec![])
+	}
+	fn from_val(_: &Val) -> Self {
+		Empty32(7)
+	}
+}
+
+/// Decode sequences from ONE input: a decode that may fail followed by further decodes. Only the
+/// outcomes (accept/reject, value, bytes consumed on success) enter the digest.
+fn run_sequences(seed: u64, n: u64, out: &mut Out) {
+	let mut rng = Rng::new(seed ^ 0x5e9);
+	for i in 0..n {
+		let len = rng.usize_below(12);
+		let bytes = gen::random_bytes(&mut rng, len.max(1));
+		let mut s = &bytes[..];
+		let mut d: Vec<u64> = Vec::new();
+		macro_rules! step {
+			($t:ty) => {{
+				let before = s.len();
+				match <$t>::decode(&mut s) {
+					Ok(x) => d.push(hash64(&(1u8, x.to_val(), before - s.len()))),
+					Err(_) => d.push(0),
+				}
+			}};
+		}
+		match i % 4 {
+			0 => {
+				step!(u32);
+				step!(u16);
+				step!(u8);
+			},
+			1 => {
+				step!(Vec<u16>);
+				step!(Option<u8>);
+				step!(u8);
+			},
+			2 => {
+				step!(u64);
+				step!(Compact<u32>);
+				step!(bool);
+				step!(u8);
+			},
+			_ => {
+				step!(String);
+				step!((u8, u16));
+				step!(u8);
+			},
+		}
+		let _ = writeln!(out.log, "sequence\tdec\t{i}\t{:016x}", hash64(&d));
+		out.cases += 1;
+	}
+}
+
 fn main() {
 	let args: Vec<String> = std::env::args().collect();
 	let get = |n: &str| args.iter().position(|a| a == n).and_then(|i| args.get(i + 1).cloned());
@@ -183,6 +269,8 @@ fn main() {
 		core::marker::PhantomData<u8>, core::time::Duration, core::ops::Range<u32>, core::ops::RangeInclusive<u8>,
 		Vec<Box<(u8, Option<String>)>>, BTreeMap<u8, Vec<BTreeSet<u16>>>, Option<Result<Vec<Vec<u16>>, BTreeSet<u8>>>,
 	);
+	t!(Empty32, Vec<Empty32>, Option<Vec<Empty32>>, (u8, Vec<Empty32>, u8));
+	run_sequences(seed, nvals * 20, &mut out);
 	#[cfg(feature = "bit-vec")]
 	{
 		use bitvec::prelude::*;
@@ -199,7 +287,7 @@ fn main() {
 	}
 	#[cfg(feature = "derive")]
 	{
-		t!(derived::DS, derived::DE, Vec<derived::DS>, Option<derived::DE>);
+		t!(derived::DS, derived::DE, Vec<derived::DS>, Option<derived::DE>, derived::Tomb, Vec<derived::Tomb>);
 	}
 	#[cfg(feature = "max-encoded-len")]
 	{
